@@ -17,10 +17,12 @@ claimed = {
  "C15": ("token model: every string with <= 7 fields; every int64 zoom; every double longitude; latitude edge up to 1e-10; no-panic obligations on every path", "§3 C15"),
  "C16": ("every operation executed twice with all map iteration orders (<= 4 keys, forked), on the swapped and on the duplicated list; results compared as sets by the solver; frame check for the caller's slices", "§3 C16"),
  "C17": ("calcBitIndex range, monotonicity and clamping for output zooms <= 3 (thorough 4) in the relaxed encoding with monotone rounding; forward run for three zoom pairs; error cases", "§3 C17"),
+ "C18": ("structure only, with the third-party transform as uninterpreted functions: argument order, source/target order, altitude pass-through, list length/order, unknown EPSG codes", "§3 C18"),
  "C19": ("frame argument: no symbolic path of the instrumented harnesses writes memory it did not allocate; SSA scan for writable / reference-typed package-level state", "§3 C19"),
  "C20": ("set helpers by symbolic membership, Max/Min, arithmetic shift against 128-bit ghost floor, Combinations enumerated on the real code", "§3 C20"),
 }
 levels = {"C19": "other"}
+notes_extra = {"C18": " — the numeric claims of C18 (EPSG:3857 is spherical Mercator on 6378137 m; round trip within 2e-10 degrees) are NOT decided: third-party transcendental code"}
 na = {
  "C06": "line voxelisation: the recursion over float midpoints (division by 360 / libm inside a recursion of input-dependent depth) could not be brought within reach of the installed solvers in the time available; see DESIGN.md §4",
  "C14": "corridor: depends on C06's line, on GJK distance (closest_go) and WGS84 geodesy (geodesy_go) numerics; only a stubbed structural claim was within reach and was not completed; see DESIGN.md §4",
@@ -40,7 +42,7 @@ for pid in sorted(claimed):
         "evidence_file": "/verif/evidence/%s.json" % pid,
         "replay_cmd_template": "/verif/bin/symgo replay {path}",
         "engine": "symgo",
-        "level_claimed": {"category": levels.get(pid, "model_checking"), "text": "bounded symbolic model checking of the real code (go/ssa of /repo's working tree -> SMT-LIB2): " + text, "design_ref": "DESIGN.md " + ref},
+        "level_claimed": {"category": levels.get(pid, "model_checking"), "text": "bounded symbolic model checking of the real code (go/ssa of /repo's working tree -> SMT-LIB2): " + text + notes_extra.get(pid, ""), "design_ref": "DESIGN.md " + ref},
         "level_note": "trusted: go/packages+go/ssa, the symgo executor/printers (validated every run: same harness run natively and by the interpreter on concrete vectors), z3 4.8.12 / z3 5.1.0 / cvc5 1.0.3, stub contracts listed in the evidence; bounds and what lies outside them are in the evidence file",
         "technique": "SSA symbolic execution + SMT (bit-vectors / floating point / reals with rounding error), native replay of counterexamples",
     })
